@@ -13,6 +13,8 @@ structure Grouped where
   groups : List (Cell × List Row)
   keyOrder : List Cell
   key : Str
+  /-- grouped by ONE column (`Key` is its name) rather than by a list of columns (`Key` is "") -/
+  single : Bool := true
   deriving Repr, DecidableEq
 
 namespace Grouped
@@ -54,7 +56,7 @@ def listKey (ω : Oracle) (ks : List Str) (r : Row) : Cell :=
 /-- `Groupby(keys []string)` -/
 def groupByList (ω : Oracle) (f : Frame) (ks : List Str) : Outcome Grouped :=
   if ks.any (fun k => !f.has k) then .err "column does not exist"
-  else .ok ((allRows f).foldl (fun g r => g.step (listKey ω ks r) r) { groups := [], keyOrder := [], key := [] })
+  else .ok ((allRows f).foldl (fun g r => g.step (listKey ω ks r) r) { groups := [], keyOrder := [], key := [], single := false })
 
 end Frame
 
@@ -84,7 +86,7 @@ namespace Grouped
 /-- `GetAllColumnNames()`: every name occurring in any row of any group, except the key column. -/
 def allColumnNames (g : Grouped) : List Str :=
   let names := g.groups.flatMap (fun kr => kr.2.flatMap (fun r => r.map (·.1)))
-  (names.filter (fun n => !(n == g.key))).eraseDups
+  (names.filter (fun n => !(g.single && n == g.key))).eraseDups
 
 /-- Assemble the result frame: `GroupKey`, then one column per requested name; a repeated name (or a
 column called `GroupKey`) makes `AddTypedColumn` fail. -/
